@@ -23,7 +23,7 @@ from .common import CACHEFILE
 
 PROPERTY = "C10"
 LEVEL = "exploration"
-RUNS = {"quick": 900, "thorough": 30000}
+RUNS = {"quick": 1500, "thorough": 30000}
 BATCH = 15
 RULE = ("seeded histories of 5-40 operations (list via any protocol, create/delete/rename/rewrite a file, "
         "edit .names/.cap/.abstract metadata, advance the clock by amounts on both sides of the lifetime) on "
